@@ -59,8 +59,12 @@ class Task(object):
 
 
 class Scheduler(object):
-    def __init__(self, choices=(), trace_files=(), trace_lines=False, max_steps=300000):
+    def __init__(self, choices=(), trace_files=(), trace_lines=False, max_steps=300000, preempt=None):
         self.tasks = []
+        # preempt: {yield index: selector} - context-bounded mode: the running task continues except at the listed yield
+        # points, where the selected ready task takes over (and then continues in its turn)
+        self.preempt = dict((int(k), int(v)) for k, v in (preempt or {}).items()) if not isinstance(preempt, list) \
+            else dict((int(k), int(v)) for k, v in preempt)
         self.choices = list(choices)
         self.ci = 0
         self.trace_files = tuple(trace_files)
@@ -128,6 +132,9 @@ class Scheduler(object):
         ready = [t for t in self.tasks if t.state == "ready"]
         if not ready:
             return None
+        if self.preempt and self.steps in self.preempt:
+            others = [t for t in ready if t is not cur] or ready
+            return others[self.preempt[self.steps] % len(others)]
         if self.ci < len(self.choices):
             c = self.choices[self.ci]
             self.ci += 1
